@@ -76,6 +76,9 @@ func toLisp(n *Node) slip.Object {
 		if bi, ok := new(big.Int).SetString(n.S, 10); ok {
 			return (*slip.Bignum)(bi)
 		}
+		if bf, _, err := big.ParseFloat(n.S, 10, uint(float64(len(n.S))*3.33)+16, big.ToNearestEven); err == nil {
+			return (*slip.LongFloat)(bf)
+		}
 		return slip.DoubleFloat(n.floatVal())
 	case kFloat:
 		return slip.DoubleFloat(n.floatVal())
@@ -1772,7 +1775,9 @@ func execPath(x *fw.Ctx, c Case) {
 			}
 		}
 		if (op.Op == "set" || op.Op == "parse") && !op.Path.definite() && op.Val.isContainer() {
-			shared = true
+			// (the special signature for steps after such a set is only in use
+			// while avoidSharedSet is on, i.e. while the matches share one value)
+			shared = avoidSharedSet
 			x.Cover("path:multi-location-container-set")
 			if avoidSharedSet && !strings.HasPrefix(c.Probe, "path:") {
 				// the matches now share one Go value (listed finding); what later
